@@ -308,6 +308,7 @@ func runC05(e *Env) error {
 				name := pick(rg, append(names, "boom", "nosuch"))
 				op := rg.Intn(4)
 				log = append(log, fmt.Sprintf("%d:%s", op, name))
+				breadcrumb("loader-engine", map[string]any{"ops": log, "templates": src})
 				res := guardedTimeout(3*time.Second, func() (string, error) {
 					switch op {
 					case 0:
@@ -326,6 +327,45 @@ func runC05(e *Env) error {
 						map[string]any{"kind": "loader-engine", "ops": log, "class": res.Class, "panic": res.Panic})
 					return nil
 				}
+			}
+		}
+	}
+	// (a4) a render that fails half-way (inside an include with variables, a macro call, a loop, a block) leaves the pooled
+	// render contexts intact: the nested renders that follow need several contexts at once and must all come back
+	{
+		failing := []string{"{% include 't2' with {'a': 1, 'v': nosuchfn()} %}", "{% include 't2' with {'v': 1 / 0} only %}", "{% for i in [1, 2] %}{% include 't2' with {'v': xs[9]} %}{% endfor %}",
+			"{% macro m(a) %}{% include 't2' with {'v': nosuchfn()} %}{% endmacro %}{{ m(1) }}", "{% extends 'base' %}{% block c %}{% include 't2' with {'v': 1|nosuchfilter} %}{% endblock %}",
+			"{% import 'lib' as l %}{{ l.m(nosuchfn()) }}", "{% include 'nosuch' with {'v': 1} %}", "{% include 't2' with {'v': 1} sandboxed %}"}
+		nestedLibs := map[string]string{"n1": "1({% include 'n2' with {'d': 2} %})", "n2": "2({% include 'n3' with {'e': 3} only %})", "n3": "3({% for i in [1, 2] %}{% include 't2' with {'v': i} %}{% endfor %})", "t2": "{{ v }}",
+			"base": "[{% block c %}b{% endblock %}]", "lib": "{% macro m(a) %}M{{ a }}{% endmacro %}"}
+		for round := 0; round < 40 && !r.Full(); round++ {
+			f := failing[round%len(failing)]
+			breadcrumb("after-failed-render", map[string]any{"failing": f, "then": "Render(n1) ×4", "templates": nestedLibs})
+			res := guardedTimeout(5*time.Second, func() (string, error) {
+				eng := twig.New()
+				for _, n := range sortedKeys(nestedLibs) {
+					eng.RegisterString(n, nestedLibs[n])
+				}
+				eng.RegisterString("f", f)
+				for k := 0; k < 3; k++ {
+					if out, err := eng.Render("f", ctx); err == nil {
+						return "", fmt.Errorf("the failing template rendered %q", out)
+					}
+				}
+				for k := 0; k < 4; k++ {
+					out, err := eng.Render("n1", ctx)
+					if err != nil || out != "1(2(3(12)))" {
+						return "", fmt.Errorf("ENGINE-UNUSABLE: nested includes after the failed render give %q %v", out, err)
+					}
+				}
+				return "ok", nil
+			})
+			r.Seen(fmt.Sprintf("after-failed-render:%d", round), true)
+			r.Hit("after-failed-render:" + res.Class)
+			if res.Class == "panic" || res.Class == "timeout" || (res.Err != nil && strings.Contains(res.Err.Error(), "ENGINE-UNUSABLE")) {
+				report("engine-unusable-after-failure", fmt.Sprintf("after %q failed three times, rendering three nested includes: %s %v %s", f, res.Class, res.Err, truncate(res.Panic, 200)),
+					map[string]any{"kind": "after-failed-render", "failing": f, "class": res.Class, "err": fmt.Sprint(res.Err), "panic": res.Panic})
+				return nil
 			}
 		}
 	}
